@@ -143,7 +143,8 @@ class Entry(Space):
         def bad(what, got, want):
             viol.append((f"{entry}:{what}", {"entry": entry, "options": o, "got": got if got is None else got[:400], "expected": want[:400]}))
 
-        with cli.scenario({"a.md": DOC, "b.md": DOC2, "c.md": DOC3, "d/e.md": DOC2, "d/f.md": DOC3}) as d:
+        # n.md is already formatted for this option set except for its final newline
+        with cli.scenario({"a.md": DOC, "b.md": DOC2, "c.md": DOC3, "d/e.md": DOC2, "d/f.md": DOC3, "n.md": exp.rstrip("\n")}) as d:
             A = os.path.join(d, "a.md")
             if entry.startswith("file-api"):
                 old = os.getcwd()
@@ -166,7 +167,9 @@ class Entry(Space):
                             bad("input-touched", open(A).read(), DOC)
                     else:
                         nb = entry.endswith("nobackup")
-                        reformat_files(["a.md", "b.md"], inplace=True, nobackup=nb, **kw)
+                        reformat_files(["a.md", "b.md", "n.md"], inplace=True, nobackup=nb, **kw)
+                        if open(os.path.join(d, "n.md")).read() != ref(exp.rstrip("\n"), o):
+                            bad("almost-formatted-file", open(os.path.join(d, "n.md")).read(), ref(exp.rstrip("\n"), o))
                         if open(A).read() != exp:
                             bad("output", open(A).read(), exp)
                         if open(os.path.join(d, "b.md")).read() != exp2:
@@ -194,9 +197,11 @@ class Entry(Space):
                     bad("input-touched", open(A).read(), DOC)
             elif entry in ("cli-i", "cli-i-nobackup"):
                 nb = entry.endswith("nobackup")
-                code, out, err = run(av + ["-i"] + (["--nobackup"] if nb else []) + ["a.md"], d)
+                code, out, err = run(av + ["-i"] + (["--nobackup"] if nb else []) + ["a.md", "n.md"], d)
                 if code != 0 or open(A).read() != exp or out != "":
                     bad("output", open(A).read(), exp)
+                if open(os.path.join(d, "n.md")).read() != ref(exp.rstrip("\n"), o):
+                    bad("almost-formatted-file", open(os.path.join(d, "n.md")).read(), ref(exp.rstrip("\n"), o))
                 has = os.path.exists(A + ".orig")
                 if has == nb:
                     bad("backup-presence", str(has), str(not nb))
